@@ -511,6 +511,22 @@ def main(argv=None):
     ap.add_argument('--digest', default=None)
     a = ap.parse_args(argv)
     pid = a.property.upper()
+    # every scratch directory of this invocation (pool workers, forked crash children, fresh interpreters) lives under one
+    # directory that is removed when the invocation ends, however its processes ended
+    import shutil
+    import tempfile
+    base = os.environ.get('VERIF_SCRATCH') or '/dev/shm'
+    if not os.path.isdir(base):
+        base = tempfile.gettempdir()
+    run_dir = tempfile.mkdtemp(prefix='artap-verif-run-', dir=base)
+    os.environ['VERIF_SCRATCH'] = run_dir
+    try:
+        return _main(a, pid)
+    finally:
+        shutil.rmtree(run_dir, ignore_errors=True)
+
+
+def _main(a, pid):
     if a.replay:
         return do_replay(pid, a.replay)
     if a.digest:
